@@ -38,22 +38,26 @@ static std::string firstDiffLine(const std::string& a, const std::string& b)
 static void report(Ctx& c, const std::string& cls, const Cmp& cmp, const std::string& prefix = "")
 {
   std::map<std::string, const Diff*> bad;
-  for (auto& d : cmp.diffs) bad[d.section + "|" + d.field] = &d;
+  for (auto& d : cmp.diffs) bad[d.owner + "|" + d.section + "|" + d.field] = &d;
   std::set<std::string> seen;
+  auto key = [&](const std::string& owner, const std::string& section, const std::string& field) {
+    return "C08:" + (owner.empty() ? cls : owner) + ":" + prefix + section + ":" + field;
+  };
   for (auto& kv : cmp.stats)
   {
-    size_t bar          = kv.first.find('|');
-    std::string section = kv.first.substr(0, bar), field = kv.first.substr(bar + 1);
-    auto it             = bad.find(kv.first);
+    size_t b1 = kv.first.find('|'), b2 = kv.first.find('|', b1 + 1);
+    std::string owner = kv.first.substr(0, b1), section = kv.first.substr(b1 + 1, b2 - b1 - 1), field = kv.first.substr(b2 + 1);
+    auto it = bad.find(kv.first);
     seen.insert(kv.first);
-    if (it == bad.end())
-      c.check(prefix + section, "C08:" + cls + ":" + prefix + section + ":" + field, true, kv.second.maxRel, 1.0);
-    else
-      c.check(prefix + section, "C08:" + cls + ":" + prefix + section + ":" + field, false, it->second->err, 1.0, it->second->what);
+    if (it == bad.end() && kv.second.maxRel > 0.3 && getenv("C08_STATS")) // calibration aid: which fields come close to the bound
+      fprintf(stderr, "STAT %s %.3f\n", key(owner, section, field).c_str(), kv.second.maxRel);
+    if (it == bad.end()) c.check(prefix + section, key(owner, section, field), true, kv.second.maxRel, 1.0);
+    else // err = inf keeps the per-oracle max(err/tol) statistic a statistic of the PASSING evaluations (head-room)
+      c.check(prefix + section, key(owner, section, field), false, INFINITY, 1.0, fmt("ratio=%.3g ", it->second->err) + it->second->what);
   }
   for (auto& d : cmp.diffs)
-    if (!seen.count(d.section + "|" + d.field))
-      c.check(prefix + d.section, "C08:" + cls + ":" + prefix + d.section + ":" + d.field, false, d.err, 1.0, d.what);
+    if (!seen.count(d.owner + "|" + d.section + "|" + d.field))
+      c.check(prefix + d.section, key(d.owner, d.section, d.field), false, INFINITY, 1.0, fmt("ratio=%.3g ", d.err) + d.what);
 }
 
 static void roundtrip(Rng& r, Ctx& c, const Entry& e)
@@ -128,12 +132,13 @@ static void roundtrip(Rng& r, Ctx& c, const Entry& e)
     // ---- idempotence of the text form
     bool okw2 = e.save(o2.get(), n2);
     c.truth("dump", "C08:" + cls + ":dumpToNF-of-reloaded-failed", okw2, "dumpToNF of the reloaded object returned false");
-    if (okw2 && differs) c.skip("idempotent:after-reported-difference");
-    if (okw2 && !differs)
+    if (okw2)
     {
       std::string text2 = readFile(p2);
       bool same         = (text1 == text2);
-      c.truth("idempotent", "C08:" + cls + ":resave-differs", same, same ? "" : firstDiffLine(text1, text2));
+      // a text difference next to an already reported getter/behaviour difference is that same difference written out
+      if (!same && differs) c.skip("idempotent:explained-by-reported-difference");
+      else c.truth("idempotent", "C08:" + cls + ":resave-differs", same, same ? "" : firstDiffLine(text1, text2));
     }
   }
 
@@ -153,14 +158,16 @@ static void roundtrip(Rng& r, Ctx& c, const Entry& e)
     if (okd && o4 && o2)
     {
       Cmp cmp;
+      cmp.skipBehaviour = differs; // two damaged reloads: their getters are still compared, their queries are not run
       e.compare(o2.get(), o4.get(), cmp); // file-loaded vs stream-loaded: same reader, must be the same object
+      if (cmp.behaviourSkipped) c.skip("stream-vs-file-behaviour:reload-already-differs");
       report(c, cls, cmp, "stream-vs-file-");
       std::ostringstream os2;
-      if (differs) c.skip("stream-resave:after-reported-difference");
-      else if (e.ser(o4.get(), os2))
+      if (e.ser(o4.get(), os2))
       {
         bool same2 = (os2.str() == os.str());
-        c.truth("stream", "C08:" + cls + ":stream-resave-differs", same2, same2 ? "" : firstDiffLine(os.str(), os2.str()));
+        if (!same2 && differs) c.skip("stream-resave:explained-by-reported-difference");
+        else c.truth("stream", "C08:" + cls + ":stream-resave-differs", same2, same2 ? "" : firstDiffLine(os.str(), os2.str()));
       }
     }
   }
@@ -211,47 +218,79 @@ static bool mergeCtx(Ctx& c, const std::string& payload)
   return complete;
 }
 
+static void exchange(Rng& r, Ctx& c, const Exchange& x)
+{
+  std::string sig = "exchange=" + x.name;
+  VectorInt cols;
+  std::unique_ptr<DbGrid> g(x.makeGrid(r, c.thorough(), sig, cols));
+  c.setSig(sig);
+  c.puts("class", x.name);
+  if (!g) { c.truth("make", "C08:" + x.name + ":harness-make-failed", false, "generator returned null"); return; }
+  std::string path = "grid." + x.name;
+  remove(path.c_str());
+  int err = x.write(g.get(), cols, path);
+  c.truth("exchange-write", "C08:" + x.name + ":write-failed", err == 0, fmt("writeInFile returned %d on a grid inside the declared domain", err));
+  if (err != 0) return;
+  if (c.verbose && x.name != "GridBmp") fprintf(stderr, "---- %s\n%s----\n", path.c_str(), readFile(path).substr(0, 3000).c_str());
+  std::unique_ptr<DbGrid> b(x.read(path));
+  c.truth("exchange-read", "C08:" + x.name + ":read-null", (bool)b, "readGridFromFile returned null on the file just written");
+  if (!b) return;
+  Cmp cmp;
+  x.compare(*g, cols, *b, cmp);
+  report(c, x.name, cmp);
+}
+
 static void run_case(Rng& r, Ctx& c)
 {
   const auto& reg = registry();
-  size_t k        = (size_t)(c.icase % (long)reg.size());
+  const auto& exf = exchangeFormats();
+  size_t k        = (size_t)(c.icase % (long)(reg.size() + exf.size()));
+  if (const char* only = getenv("C08_ONLY"))
+    for (size_t i = 0; i < exf.size(); i++)
+      if (exf[i].name == only) k = reg.size() + i;
   // developer aids (never set by bin/vcheck): C08_ONLY=<class> runs that class only, C08_AVOID=<a>,<b> skips classes,
   // C08_NOFORK=1 runs the case in the harness process itself (debugger friendly)
   if (const char* only = getenv("C08_ONLY"))
     for (size_t i = 0; i < reg.size(); i++)
       if (reg[i].name == only) k = i;
   if (const char* avoid = getenv("C08_AVOID"))
-    if ((std::string(",") + avoid + ",").find("," + reg[k].name + ",") != std::string::npos) throw SkipCase{"dev-avoid"};
-  const Entry& e = reg[k];
-  if (getenv("C08_NOFORK")) { roundtrip(r, c, e); return; }
+    if (k < reg.size() && (std::string(",") + avoid + ",").find("," + reg[k].name + ",") != std::string::npos) throw SkipCase{"dev-avoid"};
+  const bool isExch = (k >= reg.size());
+  const Entry& e    = reg[isExch ? 0 : k];
+  const std::string clsName = isExch ? exf[k - reg.size()].name : e.name;
+  auto body = [&](Rng& rr, Ctx& cc) {
+    if (isExch) exchange(rr, cc, exf[k - reg.size()]);
+    else roundtrip(rr, cc, e);
+  };
+  if (getenv("C08_NOFORK")) { body(r, c); return; }
 
   std::map<std::string, long> childProbes;
   ChildOutcome o = runChild(
     [&](int wfd) {
       Ctx cc           = c; // same log FILE*: failed oracle lines are written (and flushed) by the child itself
       cc.harnessProbes = &childProbes;
-      try { roundtrip(r, cc, e); }
+      try { body(r, cc); }
       catch (const SkipCase& s) { cc.skip("case:" + s.reason); }
-      catch (const std::bad_alloc&) { cc.check("no-exception", "C08:" + e.name + ":exception:bad_alloc", false, 1, 0, "std::bad_alloc escaped"); }
-      catch (const std::exception& ex) { cc.check("no-exception", "C08:" + e.name + ":exception:" + std::string(ex.what()).substr(0, 60), false, 1, 0, ex.what()); }
+      catch (const std::bad_alloc&) { cc.check("no-exception", "C08:" + clsName + ":exception:bad_alloc", false, 1, 0, "std::bad_alloc escaped"); }
+      catch (const std::exception& ex) { cc.check("no-exception", "C08:" + clsName + ":exception:" + std::string(ex.what()).substr(0, 60), false, 1, 0, ex.what()); }
       fflush(cc.log);
       writeAll(wfd, packCtx(cc));
     },
     60., 120., "child.err");
   bool complete = mergeCtx(c, o.payload);
-  if (c.sig.empty()) c.setSig("class=" + e.name + ":died");
+  if (c.sig.empty()) c.setSig("class=" + clsName + ":died");
   if (o.kind == ChildOutcome::OK && complete)
   {
-    c.truth("no-crash", "C08:" + e.name + ":crash", true);
+    c.truth("no-crash", "C08:" + clsName + ":crash", true);
     return;
   }
   if (o.kind == ChildOutcome::TIMEOUT)
   {
-    c.truth("no-crash", "C08:" + e.name + ":hang", false, "case exceeded 60 s CPU / 120 s wall in the child");
+    c.truth("no-crash", "C08:" + clsName + ":hang", false, "case exceeded 60 s CPU / 120 s wall in the child");
     return;
   }
   CrashId id = crashIdentity(o, selfExe());
-  c.truth("no-crash", "C08:" + e.name + ":crash:" + id.kind + ":" + id.func, false, id.excerpt);
+  c.truth("no-crash", "C08:" + clsName + ":crash:" + id.kind + ":" + id.func, false, id.excerpt);
   if (c.verbose) fprintf(stderr, "%s\n", o.errText.substr(0, 6000).c_str());
 }
 
